@@ -14,6 +14,8 @@
 
 namespace tbfsim {
 
+uint64_t wkHashFwd(uint64_t key, uint64_t a, uint64_t b, uint64_t c);
+
 struct Violation {
     std::string cls;      // violation class (stable identifier used for known findings and shrinking)
     std::string site;     // short site key: operator/clause, file:line, buffer kind ...
@@ -43,6 +45,8 @@ struct Ctx {
     double corner[3] = {0, 0, 0};
     double width[3] = {1, 1, 1};
     bool isFloat = false;
+    // data values beyond x,y,z,weight ("extra data values") are a fixed function of the original index
+    double extraData(long index, size_t k) const { return double(wkHashFwd(runKey, 0xE7, uint64_t(index), uint64_t(k)) >> 12) * (1.0 / 4503599627370496.0); }
 
     // the tree(s) whose buffers are currently handed to kernels, and the input particles by original index
     const TreeView* view = nullptr;
@@ -93,6 +97,7 @@ inline uint64_t wkHash(uint64_t key, uint64_t a, uint64_t b, uint64_t c) {
     h = mix64(h, c + 0x10000);
     return h | 1ULL;
 }
+inline uint64_t wkHashFwd(uint64_t key, uint64_t a, uint64_t b, uint64_t c) { return wkHash(key, a, b, c); }
 inline uint64_t wkWeight(uint64_t key, int tree, long index) {
     return (wkHash(key, 0xA11CE, uint64_t(tree), uint64_t(index)) & ((1ULL << 40) - 1)) | 1ULL;
 }
